@@ -344,7 +344,8 @@ fn inbound(w: &mut World, rtcp: bool, auth: &str, step: usize, rng: &mut Rng) ->
         }
         (true, "clear") => {
             let mut b = marshal_rtcp_packets(&rtcp_packets(rtcp_ssrc, rng)).unwrap();
-            let how = match rng.below(3) {
+            // (trailers only when a session exists: without one they merely break the compound parse)
+            let how = match if w.gen_[0] > 0 { rng.below(3) } else { 0 } {
                 0 => "plain",
                 1 => {
                     // looks like SRTCP: E=0 index + random tag
@@ -391,8 +392,10 @@ fn inbound(w: &mut World, rtcp: bool, auth: &str, step: usize, rng: &mut Rng) ->
                     "tag-bit-flipped"
                 }
                 1 => {
-                    let i = if rtcp { 8 + rng.below((n - 8 - 14).max(1) as u64) as usize } else { 12 + rng.below(8) as usize };
-                    good[i.min(n - 1)] ^= 1 << rng.below(8);
+                    // RTCP: sender SSRC / body / index; RTP: extension / payload (all covered by the tag)
+                    let lo = if rtcp { 4 } else { 12 };
+                    let i = lo + rng.below((n - 4 - lo) as u64) as usize;
+                    good[i] ^= 1 << rng.below(8);
                     "body-bit-flipped"
                 }
                 2 => "unrelated-key",
@@ -480,6 +483,7 @@ struct StepExp {
     aw: [u64; 2],
     rw: [String; 2],
     ad: bool,
+    dx: bool,
 }
 
 fn parse_step(v: &Value) -> StepExp {
@@ -492,6 +496,7 @@ fn parse_step(v: &Value) -> StepExp {
         aw: [a[3].as_u64().unwrap(), a[4].as_u64().unwrap()],
         rw: [rule(a[5].as_str().unwrap()), rule(a[6].as_str().unwrap())],
         ad: a[7].as_u64().unwrap() == 1,
+        dx: a[8].as_u64().unwrap() == 1,
     }
 }
 
@@ -524,71 +529,85 @@ async fn run_behaviour(net: &mut Net, case: &Value, idx: usize, seed: u64, out: 
         ads.push(st.ad);
         let mut how = String::new();
         let mut result = String::new();
+        // ---- prepare (harness code: a panic here is a harness bug and must crash the run)
+        enum Act {
+            Keys(usize),
+            SendRaw(Vec<u8>),
+            SendRtp(RtpPacket),
+            SendRtcp(Vec<RtcpPacket>),
+            Bye { clear: bool, pk: RtcpPacket },
+            Recv(Bytes),
+            Bridge(usize, RtpRewriteBridgeParams),
+            Unbridge,
+        }
+        let act = match st.op.as_str() {
+            "KX" => Act::Keys(0),
+            "KY" => Act::Keys(1),
+            "S" | "SR" => {
+                let p = rtp_packet(SSRC_OUT, w.out_seq, OUT_MARK, k, &mut rng);
+                w.out_seq = w.out_seq.wrapping_add(1);
+                if st.op == "S" { Act::SendRaw(p.marshal().unwrap()) } else { Act::SendRtp(p) }
+            }
+            "SC" => Act::SendRtcp(rtcp_packets(SSRC_OUT, &mut rng)),
+            "BYE" | "CL" => Act::Bye {
+                clear: st.op == "CL",
+                pk: RtcpPacket::Goodbye(Goodbye {
+                    sources: vec![SSRC_OUT, RTCP_MARK],
+                    reason: Some("C14-OUTBOUND-CLEARTEXT:bye".into()),
+                }),
+            },
+            "RcR" | "RvR" | "RfR" | "RcC" | "RvC" | "RfC" => {
+                let rtcp = st.op.ends_with('C');
+                let auth = match st.op.as_bytes()[1] {
+                    b'c' => "clear",
+                    b'v' => "valid",
+                    _ => "forged",
+                };
+                let (bytes, h) = inbound(&mut w, rtcp, auth, k, &mut rng);
+                how = h;
+                Act::Recv(Bytes::from(bytes))
+            }
+            "BX" | "BY" => Act::Bridge(
+                if st.op == "BX" { 0 } else { 1 },
+                RtpRewriteBridgeParams {
+                    ssrc_offset: 0x100 + rng.below(0x1000) as u32,
+                    fixed_out_ssrc: if rng.below(2) == 0 { Some(0x0C14_0B00 + rng.below(16) as u32) } else { None },
+                    payload_type: if rng.below(2) == 0 { Some(100) } else { None },
+                    dtmf_payload_type: None,
+                    initial_sequence_number: Some(2000 + rng.below(40000) as u16),
+                    initial_timestamp_offset: Some(rng.next() as u32),
+                    strip_extensions: rng.below(2) == 0,
+                },
+            ),
+            "B0" => Act::Unbridge,
+            x => tool_error(&format!("unknown op {x}")),
+        };
+        // ---- execute on the real objects (a panic here is data)
+        if let Act::Keys(t) = act {
+            w.install_keys(t);
+        }
         let r = {
-            let w = &mut w;
-            let rng = &mut rng;
-            let how = &mut how;
+            let w = &w;
             let result = &mut result;
             let mbuf = &mut mbuf;
             let peer_addr = net.peer_addr[0];
             catch_async(async move {
-                match st.op.as_str() {
-                    "KX" => w.install_keys(0),
-                    "KY" => w.install_keys(1),
-                    "S" => {
-                        let p = rtp_packet(SSRC_OUT, w.out_seq, OUT_MARK, k, rng);
-                        w.out_seq = w.out_seq.wrapping_add(1);
-                        let raw = p.marshal().unwrap();
-                        *result = format!("{:?}", w.tr[0].send(&raw).await.map_err(|e| e.to_string()));
-                    }
-                    "SR" => {
-                        let p = rtp_packet(SSRC_OUT, w.out_seq, OUT_MARK, k, rng);
-                        w.out_seq = w.out_seq.wrapping_add(1);
-                        *result = format!("{:?}", w.tr[0].send_rtp(p).await.map_err(|e| e.to_string()));
-                    }
-                    "SC" => {
-                        let pk = rtcp_packets(SSRC_OUT, rng);
-                        *result = format!("{:?}", w.tr[0].send_rtcp(&pk).await.map_err(|e| e.to_string()));
-                    }
-                    "BYE" | "CL" => {
-                        if st.op == "CL" {
+                match act {
+                    Act::Keys(_) => {}
+                    Act::SendRaw(raw) => *result = format!("{:?}", w.tr[0].send(&raw).await.map_err(|e| e.to_string())),
+                    Act::SendRtp(p) => *result = format!("{:?}", w.tr[0].send_rtp(p).await.map_err(|e| e.to_string())),
+                    Act::SendRtcp(pk) => *result = format!("{:?}", w.tr[0].send_rtcp(&pk).await.map_err(|e| e.to_string())),
+                    Act::Bye { clear, pk } => {
+                        // the close path of PeerConnection: listeners cleared, then the synchronous BYE
+                        if clear {
                             w.tr[0].clear_listeners();
                         }
-                        let bye = RtcpPacket::Goodbye(Goodbye {
-                            sources: vec![SSRC_OUT, RTCP_MARK],
-                            reason: Some("C14-OUTBOUND-CLEARTEXT:bye".into()),
-                        });
-                        w.tr[0].send_rtcp_sync(&[bye]);
+                        w.tr[0].send_rtcp_sync(&[pk]);
                     }
-                    "RcR" | "RvR" | "RfR" | "RcC" | "RvC" | "RfC" => {
-                        let rtcp = st.op.ends_with('C');
-                        let auth = match st.op.as_bytes()[1] {
-                            b'c' => "clear",
-                            b'v' => "valid",
-                            _ => "forged",
-                        };
-                        let (bytes, h) = inbound(w, rtcp, auth, k, rng);
-                        *how = h;
-                        // through the connection's demultiplexer, as the socket read loop does
-                        w.conn[0].receive(Bytes::from(bytes), peer_addr, mbuf).await;
-                    }
-                    "BX" | "BY" => {
-                        let target = w.tr[if st.op == "BX" { 0 } else { 1 }].clone();
-                        w.tr[0].bridge_rewrite_to(
-                            target,
-                            RtpRewriteBridgeParams {
-                                ssrc_offset: 0x100 + rng.below(0x1000) as u32,
-                                fixed_out_ssrc: if rng.below(2) == 0 { Some(0x0C14_0B00 + rng.below(16) as u32) } else { None },
-                                payload_type: if rng.below(2) == 0 { Some(100) } else { None },
-                                dtmf_payload_type: None,
-                                initial_sequence_number: Some(2000 + rng.below(40000) as u16),
-                                initial_timestamp_offset: Some(rng.next() as u32),
-                                strip_extensions: rng.below(2) == 0,
-                            },
-                        );
-                    }
-                    "B0" => w.tr[0].clear_bridge_rewrite(),
-                    x => tool_error(&format!("unknown op {x}")),
+                    // through the connection's demultiplexer, as the socket read loop does
+                    Act::Recv(bytes) => w.conn[0].receive(bytes, peer_addr, mbuf).await,
+                    Act::Bridge(t, params) => w.tr[0].bridge_rewrite_to(w.tr[t].clone(), params),
+                    Act::Unbridge => w.tr[0].clear_bridge_rewrite(),
                 }
             })
             .await
@@ -670,7 +689,7 @@ async fn run_behaviour(net: &mut Net, case: &Value, idx: usize, seed: u64, out: 
         // ---- beyond the property: exact expectation of the contract
         let mut exp_d: Vec<char> = st.deliveries.chars().collect();
         exp_d.sort();
-        let ext = if observed_emission != st.emission || observed_deliveries != exp_d {
+        let ext = if st.dx && (observed_emission != st.emission || observed_deliveries != exp_d) {
             Some(json!({"rule": "EXT", "field": "exact", "expected": {"wire": st.emission, "sinks": st.deliveries},
                         "observed": {"wire": observed_emission, "sinks": observed_deliveries.iter().collect::<String>()}}))
         } else {
